@@ -17,7 +17,10 @@ RULE = (
     "cases: (decision matrix 3-12 alternatives x 1-6 criteria, dyadic values k/8 with ties inside columns and duplicated "
     "rows so that modes and medians are non-trivial, a share of arbitrary doubles; a missing pattern that leaves >= 1 "
     "observed value per criterion: random density 0.1-0.6, whole missing alternatives, all-observed, heavily missing = "
-    "exactly one observed value per criterion; missing cells written as NaN or as a sentinel `missing_values`) x "
+    "exactly one observed value per criterion; missing cells written as NaN or as a sentinel `missing_values`; alternative "
+    "and/or criterion labels that are whole numbers >= 1000 (years, ids - never a position) instead of strings on about a "
+    "third of the matrices plus a forced stream alternatives / criteria / both x every imputer, labels compared with their "
+    "types: 2019 is not '2019') x "
     "(SimpleImputer: strategy mean/median/most_frequent/constant, fill_value None/int/float, keep_empty_criteria; "
     "KNNImputer: n_neighbors 1-5, weights uniform/distance/callable, metric nan_euclidean/callable, keep_empty_criteria; "
     "IterativeImputer: estimator None/BayesianRidge/LinearRegression/KNeighborsRegressor/DecisionTreeRegressor, "
@@ -76,10 +79,20 @@ def _pattern(rng, m, n, style):
     return mask
 
 
-def _dm(rng, style=None, family=None, m=None, n=None):
+INT_LABEL_RATE = 0.2  # per axis: about a third of the matrices carry whole-number labels on some axis
+
+
+def _dm(rng, style=None, family=None, m=None, n=None, int_labels=None):
+    """`int_labels`: None = each axis labelled with whole numbers (years / ids, never a position) at INT_LABEL_RATE;
+    "alts" / "crits" / "both" = forced on that axis"""
     m, n = m or rng.randint(3, 12), n or rng.randint(1, 6)
     family = family or rng.choice(["dyadic", "dyadic", "dyadic", "float"])
-    dm = G.dm_case(rng, m=m, n=n, family=family, positive=rng.random() < 0.6, ties=rng.choice([0.3, 0.6, 0.8]), dups=0.15)
+    dm = G.dm_case(rng, m=m, n=n, family=family, positive=rng.random() < 0.6, ties=rng.choice([0.3, 0.6, 0.8]), dups=0.15,
+                   int_label_rate=INT_LABEL_RATE if int_labels is None else 0.0)
+    if int_labels in ("alts", "both"):
+        dm["alternatives"] = G.int_labels(rng, m)
+    if int_labels in ("crits", "both"):
+        dm["criteria"] = G.int_labels(rng, n)
     style = style or rng.choice(["random", "random", "random", "rows", "heavy", "none"])
     mask = _pattern(rng, m, n, style)
     dm["matrix"] = [[None if mask[i][j] else dm["matrix"][i][j] for j in range(n)] for i in range(m)]
@@ -180,9 +193,9 @@ def _warm(rng, dm, kw, mode=None):
     return {"mode": mode, "dm": w}
 
 
-def _impute_case(rng, cls=None, style=None, warm=None):
+def _impute_case(rng, cls=None, style=None, warm=None, int_labels=None):
     cls = cls or rng.choice(["Simple", "Simple", "Simple", "KNN", "KNN", "Iterative", "Iterative"])
-    dm = _dm(rng, style)
+    dm = _dm(rng, style, int_labels=int_labels)
     n = len(dm["criteria"])
     kw = {"Simple": _simple_kw, "KNN": _knn_kw}[cls](rng) if cls != "Iterative" else _iter_kw(rng, n)
     case = {"kind": "impute", "cls": cls, "kw": kw, "dm": dm, "sentinel": None}
@@ -280,6 +293,10 @@ def gen(ctx):
         for cls in ("Simple", "Simple", "KNN", "Iterative"):
             for _ in range(ctx.n(8, 250)):
                 cases.append(_impute_case(rng, cls=cls, warm=mode))
+    for which in ("alts", "crits", "both"):  # whole-number labels through every imputer, one-step and on a re-used object
+        for cls in ("Simple", "KNN", "Iterative"):
+            for _ in range(ctx.n(6, 200)):
+                cases.append(_impute_case(rng, cls=cls, int_labels=which))
     for _ in range(ctx.n(80, 2500)):
         cases.append(_knn_k_case(rng))
     for _ in range(ctx.n(30, 800)):
@@ -366,8 +383,8 @@ def _dm_obs(res, inp, mask):
     o = {
         "shape": list(out.shape),
         "matrix": [[None if math.isnan(x) else float(x) for x in row] for row in out.tolist()],
-        "alts": [str(a) for a in res.alternatives],
-        "criteria": [str(c) for c in res.criteria],
+        "alts": [G.lab(a) for a in res.alternatives],  # labels keep their type: 2019 is not "2019"
+        "criteria": [G.lab(c) for c in res.criteria],
         "objectives": [int(x) for x in res.iobjectives],
         "weights": [float(w) for w in res.weights],
     }
@@ -638,8 +655,10 @@ def _judge_one(case, dm, obs, replies, lab, prop, corr):
     if obs["nan_left"]:
         prop(f"{lab}: {obs['nan_left']} NaN left in the matrix")
         return
-    if obs["alts"] != dm["alternatives"] or obs["criteria"] != dm["criteria"]:
-        prop(f"{lab}: labels changed", [dm["alternatives"], dm["criteria"]], [obs["alts"], obs["criteria"]])
+    want_labels = [[G.lab(a) for a in dm["alternatives"]], [G.lab(c) for c in dm["criteria"]]]
+    if [obs["alts"], obs["criteria"]] != want_labels:
+        prop(f"{lab}: labels changed (values and types compared: a whole-number label such as 2019 is not the string '2019')",
+             want_labels, [obs["alts"], obs["criteria"]])
     if obs["objectives"] != dm["objectives"]:
         prop(f"{lab}: objectives changed", dm["objectives"], obs["objectives"])
     if [_bits(w) for w in obs["weights"]] != [_bits(w) for w in dm["weights"]]:
@@ -698,6 +717,9 @@ def tags(case, obs):
     if case["kind"] == "knn_k":
         return ["knn_k", f"knn_k:k={case['k']}", "knn_k:" + case["weights"]] + (["knn_k:two-step"] if case.get("warm_rows") else [])
     t = ["cls:" + case["cls"], "style:" + str(case["dm"].get("style")), "family:" + str(case["dm"].get("family"))]
+    ints = [ax for ax, key in (("alts", "alternatives"), ("crits", "criteria")) if any(not isinstance(x, str) for x in case["dm"][key])]
+    if ints:
+        t += ["int-labels", "int-labels:" + "+".join(ints), "int-labels:" + case["cls"]]
     kw, cells = case["kw"], case["dm"]["matrix"]
     if case.get("warm"):
         t += ["two-step", "two-step:" + case["warm"]["mode"], "two-step:" + case["cls"]]
